@@ -1,5 +1,6 @@
 (* C07/Driver.v — entry points of the correspondence run (extracted to OCaml). *)
-From RM Require Import C07.Model C06.Driver.
+From RM Require Import C07.Model C07.Text C06.Driver.
+From RM Require C09.Grammar.
 Open Scope Z_scope.
 
 (* a record of the case line: STACK WIN fields, or one STACK CFI INIT line *)
@@ -46,5 +47,37 @@ Definition run_real7 (ctx : list (bytes * Z)) (valid : option (list bytes))
       | None => out_none
       end
   | Ret None => out_none
+  | _ => out_panic
+  end.
+
+(* ---- the same two front-ends, starting from the TEXT of the symbol file (C07/Text.v) ---- *)
+Definition out_rejected := Build_c06_out 4 None None [] [].
+
+Definition run_mock7_text (lookup gcps : Z) (hasgc : bool) (regs : list (bytes * Z)) (membase : Z) (mem : bytes)
+                          (lines : list bytes) (names : list bytes) : c06_out :=
+  let E := mock_env 4 lookup regs membase mem hasgc gcps in
+  match walk_frame_text (mock_ops 4) Debug E (map C09.Grammar.to_rle lines) m_init with
+  | Ret (Some (Some s)) => observe_mock names s
+  | Ret (Some None) => out_none
+  | Ret None => out_rejected
+  | _ => out_panic
+  end.
+
+Definition run_real7_text (ctx : list (bytes * Z)) (valid : option (list bytes))
+                          (stackbase : Z) (stack : bytes) (lines : list bytes) : c06_out :=
+  let a := x86 in
+  let ip := match assoc (a_ip a) ctx with Some v => v | None => 0 end in
+  let sp := match assoc (a_sp a) ctx with Some v => v | None => 0 end in
+  let sp_valid := match valid with None => true | Some which => mem_b (a_sp a) which end in
+  if negb sp_valid || (ip <? 1073741824) || (1073741824 + 65536 <=? ip) then out_none else
+  let E := mkEnv (real_callee a ctx valid) (mem_read 4 stackbase stack) (ip - 1073741824) false 0 in
+  match walk_frame_text (real_ops a) Debug E (map C09.Grammar.to_rle lines) (real_init a ctx valid) with
+  | Ret (Some (Some s)) =>
+      match post_real 0 a sp s with
+      | Some s1 => Build_c06_out 1 None None (observe_real a s1) []
+      | None => out_none
+      end
+  | Ret (Some None) => out_none
+  | Ret None => out_none       (* no symbols: no CFI frame *)
   | _ => out_panic
   end.
